@@ -20,8 +20,21 @@ func TestDbgFaultLog(t *testing.T) {
 		t.Fatal(err)
 	}
 	dbgFS = nil
-	_, err := runFaultsOpts(c, false, true)
+	vfs.TextLog = os.Getenv("VERIF_TEXTLOG") != ""
+	var err error
+	for r := 0; r < envInt("VERIF_REPLAY_RUNS", 1); r++ {
+		if _, err = runFaultsOpts(c, os.Getenv("VERIF_DBG_STRICT") != "", true); err != nil {
+			break
+		}
+	}
 	fmt.Println("ERR:", err)
+	if dbgFS != nil && vfs.TextLog {
+		for _, l := range dbgFS.Text() {
+			fmt.Println(l)
+		}
+		fmt.Println("files:", dbgFS.Files())
+		return
+	}
 	if dbgFS != nil {
 		for i, l := range dbgFS.LogFrom(0) {
 			fmt.Printf("%3d %s %s-%d n=%d\n", i, l.Kind, l.FType, l.Num, l.N)
